@@ -155,6 +155,12 @@ func opSweep(w *World, s *Step) (string, string) {
 			faults = append(faults, Fault{Kind: "truncate", Len: l})
 		}
 	case "skshrink":
+		for _, v := range []int{0, 1, 2, 3, 4, 5, 7, 8, 15, 16, n - 28 - 1, n - 28 + 1, 65535} {
+			faults = append(faults, Fault{Kind: "sklen", Val: v})
+		}
+		for _, v := range []int{0, 1, 27, 28, 29, n - 1, n + 1, 1 << 31} {
+			faults = append(faults, Fault{Kind: "hdrlen", Val: v})
+		}
 		fill := NewRng(uint64(n) * 977).Bytes(40)
 		for k := 0; k <= s.N && 32+k < n; k++ {
 			faults = append(faults, Fault{Kind: "skshrink", Len: k})
